@@ -115,6 +115,7 @@ type ConnCfg struct {
 	Storage     string `json:"storage,omitempty"` // "" (library default) | payload | nopayload
 	NodeID      string `json:"nodeID,omitempty"`
 	Unreliable  bool   `json:"unreliable,omitempty"` // offer a second, unreliable transport (AsUnreliable)
+	Encoding    string `json:"encoding,omitempty"`   // "" = protobuf (library default) | "json"
 }
 
 type Scenario struct {
@@ -185,7 +186,7 @@ type Driver struct {
 
 func NewDriver(sc *Scenario) *Driver {
 	rec := NewRec(sc.ID)
-	d := &Driver{sc: sc, rec: rec, b: NewBroker(rec),
+	d := &Driver{sc: sc, rec: rec, b: NewBrokerEnc(rec, sc.Conn.Encoding),
 		ups: map[string]*iscp.Upstream{}, downs: map[string]*iscp.Downstream{}, sids: map[string]string{},
 		procs: map[string]*proc{}, calls: map[string]string{}}
 	d.wd = 5 * time.Second
@@ -469,6 +470,9 @@ func (d *Driver) exec(st *Step, g string) {
 			})),
 			iscp.WithConnReconnectedEventHandler(iscp.ReconnectedEventHandlerFunc(func(*iscp.ReconnectedEvent) { d.rec.Log("Reconnected") })),
 			iscp.WithConnNodeID("node-" + d.sc.ID),
+		}
+		if d.sc.Conn.Encoding == "json" {
+			opts = append(opts, iscp.WithConnEncoding(iscp.EncodingNameJSON))
 		}
 		if len(d.sc.Conn.PingMs) == 2 {
 			opts = append(opts, iscp.WithConnPingInterval(time.Duration(d.sc.Conn.PingMs[0])*time.Millisecond),
